@@ -50,8 +50,13 @@ def plan(tier, seed):
     return specs
 
 
+_ROUTES = ("zip", "with_name", "Array")
+_route_counter = [0]
+
+
 def mk(kind, ls):
-    """ls: list of N LVec with the same system/flavor"""
+    """ls: list of N LVec with the same system/flavor; Awkward operands rotate through the three construction
+    routes (vector.zip, hand-named ak.zip(with_name=) keeping momentum field names, vector.Array)"""
     s0 = ls[0]
     rows = [l.f64()[0] for l in ls]
     if kind == "object":
@@ -59,7 +64,8 @@ def mk(kind, ls):
     if kind == "numpy":
         return B.mk_numpy_cls(s0.system, rows, s0.momentum)
     mom = s0.momentum and any(B.MOM_SPELL[x] for x in R.field_names(s0.system))
-    arr = awk.build(s0.system, rows, mom, list(range(len(rows))), route="zip")
+    _route_counter[0] += 1
+    arr = awk.build(s0.system, rows, mom, list(range(len(rows))), route=_ROUTES[_route_counter[0] % 3])
     if kind == "awkward":
         return arr
     return arr[0]
